@@ -5,7 +5,7 @@
 (* checked in the same TLC run; GCasesOnly stops after the configuration step (for the very large families).        *)
 EXTENDS KmsRegions, Json
 GConfigure == ConfigureWith(LAMBDA k : PrintT(ToJson(k)))
-GNext == GConfigure \/ Wrap \/ Unwrap
+GNext == GConfigure \/ Wrap \/ Unwrap \/ Reunwrap
 GSpec == Init /\ [][GNext]_vars
 GCasesOnly == Init /\ [][GConfigure]_vars
 =============================================================================
